@@ -413,6 +413,31 @@ def emit_type(out, item, relfile):
     out.emit(kept.strip('\n'))
     out.emit('')
 
+def emit_match_as_fn(out, it, relfile, want, contracts):
+    # X13: `<lhs> = match <scrutinee> { arms }` inside a function that Verus cannot take (it iterates a Vec
+    # by &mut) is emitted as `fn <name>(<param>: T) -> T { match <param> { arms } }` - the arms verbatim
+    body = it.body
+    head = want['assign']                      # e.g. 'value.arity = match value.arity'
+    if body.count(head) != 1: raise LostAnchor('%s: X13 anchor %r occurs %d times' % (relfile, head, body.count(head)))
+    i = body.index(head) + len(head)
+    spans = lex_spans(body[i:])
+    k0 = next(q for q, sp in enumerate(spans) if sp[0] == 'punct' and body[i + sp[1]] == '{')
+    kc = match_close(body[i:], spans, k0)
+    arms = body[i + spans[k0][1]: i + spans[kc][2]]
+    key = (relfile, '-', want['as'])
+    contract = contracts.get(key)
+    if contract is None: raise LostAnchor('no contract for %r' % (key,))
+    contract.used = True
+    lo = out.lineno
+    out.emit('pub fn %s(%s: %s) -> (%s: %s)' % (want['as'], want['param'], want['type'], contract.ret or 'r', want['type']))
+    emit_clauses(out, want['as'], contract.clauses, '    ')
+    out.emit('{')
+    out.emit('    match %s %s' % (want['param'], arms))
+    out.emit('}')
+    out.emit('')
+    out.fn_index.append({'name': want['as'], 'file': relfile, 'line_lo': lo, 'line_hi': out.lineno - 1, 'mode': 'verify'})
+    out.log.append({'rule': 'X13', 'fn': want['as'], 'what': 'the match expression after %r of %s emitted as a function of the scrutinee' % (head, it.header[:60])})
+
 def container_name(header):
     """impl<'a> ParseState<'a>  ->  ParseState ; impl<'a, T> ParseResultExtras<'a, T> for ParseResult<'a, T> -> ParseResultExtras_for_ParseResult"""
     h = re.sub(r'\s+', ' ', header)
@@ -440,35 +465,21 @@ def extract(repo, plan, contracts, out):
             if len(found) != 1:
                 raise LostAnchor('%s: %r matches %d items' % (relfile, want['match'], len(found)))
             it = found[0]
+            if want['kind'] == 'match_as_fn':
+                try:
+                    emit_match_as_fn(out, it, relfile, want, contracts)
+                except LostAnchor as e:
+                    # only this function is lost: its clauses become 'unreachable' (no bounded stand-in exists for it)
+                    key = (relfile, '-', want['as'])
+                    if key in contracts: contracts[key].used = True
+                    out.unreachable[want['as']] = 'lost anchor: %s' % e
+                    out.log.append({'rule': 'FALLBACK', 'fn': want['as'], 'what': 'not extracted: %s' % e})
+                continue
             if want['kind'] == 'type':
                 emit_type(out, it, relfile)
             elif want['kind'] == 'fn':
                 emit_fn(out, it, relfile, '-', contracts)
                 out.emit('')
-            elif want['kind'] == 'match_as_fn':
-                # X13: `<lhs> = match <scrutinee> { arms }` inside a function that Verus cannot take (it iterates a Vec
-                # by &mut) is emitted as `fn <name>(<param>: T) -> T { match <param> { arms } }` - the arms verbatim
-                body = it.body
-                head = want['assign']                      # e.g. 'value.arity = match value.arity'
-                if body.count(head) != 1: raise LostAnchor('%s: X13 anchor %r occurs %d times' % (relfile, head, body.count(head)))
-                i = body.index(head) + len(head)
-                spans = lex_spans(body[i:])
-                k0 = next(q for q, sp in enumerate(spans) if sp[0] == 'punct' and body[i + sp[1]] == '{')
-                kc = match_close(body[i:], spans, k0)
-                arms = body[i + spans[k0][1]: i + spans[kc][2]]
-                key = (relfile, '-', want['as'])
-                contract = contracts.get(key)
-                if contract is None: raise LostAnchor('no contract for %r' % (key,))
-                contract.used = True
-                lo = out.lineno
-                out.emit('pub fn %s(%s: %s) -> (%s: %s)' % (want['as'], want['param'], want['type'], contract.ret or 'r', want['type']))
-                emit_clauses(out, want['as'], contract.clauses, '    ')
-                out.emit('{')
-                out.emit('    match %s %s' % (want['param'], arms))
-                out.emit('}')
-                out.emit('')
-                out.fn_index.append({'name': want['as'], 'file': relfile, 'line_lo': lo, 'line_hi': out.lineno - 1, 'mode': 'verify'})
-                out.log.append({'rule': 'X13', 'fn': want['as'], 'what': 'the match expression after %r of %s emitted as a function of the scrutinee' % (head, it.header[:60])})
             elif want['kind'] == 'impl_as_fns':
                 cname = want['as']
                 inner = find_items(src[it.body_open + 1:it.body_close], relfile)
